@@ -1,4 +1,5 @@
 import AFProofs.Lemmas.Grid
+import AFProofs.Lemmas.GridPhys
 
 /-!
 # C16 — grid searches and sensitivity mapping: cells, tiling, result order, reported shape/limits
@@ -502,6 +503,179 @@ theorem reported_upper_partial (cfg : Cfg) (hc : cfg.upperClamp = true) (d : Dim
 /-- labels in attribute order do not match values in id order -/
 theorem headers_refuted_when_flag_off :
     headers { labelsById := false } ["y", "x"] ["x", "y"] ≠ ["y", "x"] := by decide
+
+/-! ## the physical limits at the level of doubles (`AFModel/GridPhys.lean`)
+
+`uniValue S lo hi q` is `UniformPrior(lo, hi).value_for(u)` as the code computes it from the quantile
+round trip `q = ndtr(ndtri(u))` (the only libm-dependent step, a parameter): raw value, limit gate,
+rounding `S.round`, clamp. The first group holds for every number type and every rounding function - in
+particular for `Float` with CPython's `round`, the instance the driver runs and the harness compares bit
+for bit with `physical_*_lists` and the sensitivity cells. -/
+
+section PhysAny
+open AF.Prior
+variable {K : Type} [Add K] [Sub K] [Mul K] [Div K] [LE K] [LT K] [DecidableLE K] [DecidableLT K]
+  [OfNat K 0] [OfNat K 1] [OfNat K 10]
+set_option linter.unusedSectionVars false
+
+/-- a reported physical limit raises `PriorLimitException` exactly when the raw value `q·(hi-lo)+lo` is
+outside the prior's limits (known finding `C16-prior-unit-end-outside-limits` is the case `q = 1`) -/
+theorem reported_physical_raises_iff (S : Special K) (lo hi q : K) :
+    uniValue S lo hi q = .limit ↔ ¬ (lo ≤ uniRaw lo hi q ∧ uniRaw lo hi q ≤ hi) :=
+  uniValue_limit_iff S lo hi q
+
+/-- otherwise it is the raw value rounded and clamped into the limits -/
+theorem reported_physical_value (S : Special K) (lo hi q : K)
+    (h : lo ≤ uniRaw lo hi q ∧ uniRaw lo hi q ≤ hi) :
+    uniValue S lo hi q = .ok (clamp lo hi (S.round (decimalPlaces (hi - lo)) (uniRaw lo hi q))) :=
+  uniValue_ok S lo hi q h
+
+/-- the reported value is property C02's `value_for` of the grid prior (so C02's theorems about
+`valueFor` - quantile, monotone, inverse - apply to the limits a grid search reports) -/
+theorem reported_physical_is_value_for (S : Special K) (lo hi u : K) :
+    uniValue S lo hi (S.phi (S.phiInv u)) = valueFor S {} false (uniParams lo hi) u :=
+  uniValue_eq_valueFor S lo hi u
+
+/-- row-major: the `k`-th row of `physical_lower_limits_lists` (`centre = false`) holds `value_for` of the
+unit values of the cell with the mixed-radix digits of `k` -/
+theorem reported_physical_row_major (N : Num K) (S : Special K) (trip : K → K) (centre : Bool)
+    (dims : List (Dim K)) (k : Nat) (hk : k < prod (counts dims)) :
+    (physLists S trip dims (unitLists N centre dims))[k]?
+      = some (cellAt (fun d i => uniValue S d.lo d.hi (trip (unitValue N centre d i))) dims
+          (digits (counts dims) k)) := by
+  rw [physLists_unitLists]
+  exact map_lattice_row_major dims _ k hk
+
+/-- one reported row per cell -/
+theorem reported_physical_count (N : Num K) (S : Special K) (trip : K → K) (centre : Bool)
+    (dims : List (Dim K)) :
+    (physLists S trip dims (unitLists N centre dims)).length = prod (counts dims) := by
+  rw [physLists_unitLists]
+  exact map_lattice_length dims _
+
+/-- sensitivity mapping at the level of doubles: one cell per lattice point, the `k`-th job's perturbation
+and prior limits are those of the multi-index `digits k` (row-major) -/
+theorem sens_physical_row_major (N : Num K) (S : Special K) (trip : K → K) (scale : K)
+    (dims : List (Dim K)) (k : Nat) (hk : k < prod (counts dims)) :
+    (sensPhysCells N S trip scale dims).length = prod (counts dims) ∧
+    (sensPhysCells N S trip scale dims)[k]?
+      = some (cellAt (sensPhysDim N S trip scale) dims (digits (counts dims) k)) :=
+  ⟨map_lattice_length dims _, map_lattice_row_major dims _ k hk⟩
+
+/-- a sensitivity cell has no prior (and `Sensitivity.run` raises) exactly when `value_for` of one of its
+two unit limits raises -/
+theorem sens_physical_raises_iff (N : Num K) (S : Special K) (trip : K → K) (scale : K) (d : Dim K)
+    (k : Nat) :
+    (sensPhysDim N S trip scale d k).limits = none ↔
+      (uniValue S d.lo d.hi (trip (sensCellDim N scale d k).unitLower) = .limit ∨
+       uniValue S d.lo d.hi (trip (sensCellDim N scale d k).unitUpper) = .limit) := by
+  simp only [sensPhysDim]
+  cases h1 : uniValue S d.lo d.hi (trip (sensCellDim N scale d k).unitLower) <;>
+    cases h2 : uniValue S d.lo d.hi (trip (sensCellDim N scale d k).unitUpper) <;> simp
+
+end PhysAny
+
+section PhysField
+open AF.Prior Lean Grind
+variable {K : Type} [Field K] [LE K] [LT K] [Std.IsLinearOrder K] [Std.LawfulOrderLT K] [OrderedRing K]
+  [DecidableLE K] [DecidableLT K]
+set_option linter.unusedSectionVars false
+
+/-- whatever the rounding function and the round trip: a physical limit the result reports lies inside
+the original prior's limits -/
+theorem reported_physical_in_limits (S : Special K) (lo hi q v : K) (hLU : lo ≤ hi)
+    (h : uniValue S lo hi q = .ok v) : lo ≤ v ∧ v ≤ hi :=
+  uniValue_mem S lo hi q v hLU h
+
+/-- with a monotone rounding function (CPython's `round` is) reported limits are ordered like the round
+trips of their unit values: the reported edges of successive cells never cross -/
+theorem reported_physical_monotone (S : Special K)
+    (hm : ∀ n x y, x ≤ y → S.round n x ≤ S.round n y) (lo hi q q' v v' : K) (hLU : lo ≤ hi)
+    (hq : q ≤ q') (h : uniValue S lo hi q = .ok v) (h' : uniValue S lo hi q' = .ok v') : v ≤ v' := by
+  by_cases hr : lo ≤ uniRaw lo hi q ∧ uniRaw lo hi q ≤ hi
+  · by_cases hr' : lo ≤ uniRaw lo hi q' ∧ uniRaw lo hi q' ≤ hi
+    · rw [uniValue_ok S lo hi q hr] at h
+      rw [uniValue_ok S lo hi q' hr'] at h'
+      cases h
+      cases h'
+      exact clamp_mono _ _ _ _ (hm _ _ _ (uniRaw_mono lo hi q q' hLU hq))
+    · rw [uniValue_limit S lo hi q' hr'] at h'
+      cases h'
+  · rw [uniValue_limit S lo hi q hr] at h
+    cases h
+
+/-- refinement: in exact arithmetic (no rounding, exact round trip) the reported value of a unit value in
+`[0, 1]` never raises and is `lo + u·(hi - lo)`, the map the tiling theorems are about -/
+theorem reported_physical_exact (S : Special K) (hr : ∀ n x, S.round n x = x) (lo hi u : K)
+    (hLU : lo ≤ hi) (h0 : 0 ≤ u) (h1 : u ≤ 1) :
+    uniValue S lo hi u = .ok (lo + u * (hi - lo)) := by
+  have hmem := uniRaw_mem lo hi u hLU h0 h1
+  rw [uniValue_ok S lo hi u hmem, hr, clamp_id _ _ _ hmem]
+  simp only [uniRaw]
+  congr 1
+  grind
+
+/-- sensitivity mapping: `Prior.with_limits` does not move limits that came out of `value_for`: the
+cell's prior has exactly the two `value_for` values as limits, inside the original prior's limits -/
+theorem sens_limits_are_value_for (N : Num K) (S : Special K) (trip : K → K) (scale : K) (d : Dim K)
+    (k : Nat) (a b : K) (hLU : d.lo ≤ d.hi)
+    (h : (sensPhysDim N S trip scale d k).limits = some (a, b)) :
+    uniValue S d.lo d.hi (trip (sensCellDim N scale d k).unitLower) = .ok a ∧
+    uniValue S d.lo d.hi (trip (sensCellDim N scale d k).unitUpper) = .ok b ∧
+    d.lo ≤ a ∧ b ≤ d.hi := by
+  simp only [sensPhysDim] at h
+  cases h1 : uniValue S d.lo d.hi (trip (sensCellDim N scale d k).unitLower) with
+  | limit => simp [h1] at h
+  | ok va =>
+    cases h2 : uniValue S d.lo d.hi (trip (sensCellDim N scale d k).unitUpper) with
+    | limit => simp [h1, h2] at h
+    | ok vb =>
+      have ma := uniValue_mem S _ _ _ va hLU h1
+      have mb := uniValue_mem S _ _ _ vb hLU h2
+      simp only [h1, h2, Option.some.injEq, Prod.mk.injEq] at h
+      rw [pyMax_of_le va d.lo ma.1, pyMin_of_le vb d.hi mb.2] at h
+      obtain ⟨rfl, rfl⟩ := h
+      exact ⟨rfl, rfl, ma.1, mb.2⟩
+
+end PhysField
+
+/-- the float-level definition, run in exact arithmetic, reports exactly the limits of the cell fitted
+(`reported_limits_are_fitted` stated through `value_for` instead of the idealised `physical`) -/
+theorem reported_physical_limits_are_fitted (cfg cfg' : Cfg) (lo hi : Rat) (hLU : lo ≤ hi) (n k : Nat)
+    (hk : k < n) :
+    (uniValue AF.Prior.ratSpecial lo hi (unitValue ratNum false (mkDim ratNum cfg lo hi n) k),
+     uniValue AF.Prior.ratSpecial lo hi
+       (upperUnit ratNum cfg' n (unitValue ratNum false (mkDim ratNum cfg lo hi n) k)))
+      = (.ok (gridCellDim ratNum (mkDim ratNum cfg lo hi n) k).1,
+         .ok (gridCellDim ratNum (mkDim ratNum cfg lo hi n) k).2) := by
+  have e := reported_limits_are_fitted cfg cfg' lo hi n k hk
+  have hu0 : (0 : Rat) ≤ unitValue ratNum false (mkDim ratNum cfg lo hi n) k := unit_lower_nonneg n k
+  have hu1 : unitValue ratNum false (mkDim ratNum cfg lo hi n) k + (mkDim ratNum cfg lo hi n).step ≤ 1 :=
+    unit_upper_le_one n k hk
+  have hs : (0 : Rat) ≤ (mkDim ratNum cfg lo hi n).step := inv_nat_nonneg n
+  rw [reported_upper_exact cfg cfg' lo hi n k hk] at e ⊢
+  rw [reported_physical_exact AF.Prior.ratSpecial (fun _ _ => rfl) lo hi _ hLU hu0 (by grind),
+    reported_physical_exact AF.Prior.ratSpecial (fun _ _ => rfl) lo hi _ hLU (by grind) hu1]
+  rw [← e]
+  rfl
+
+example : uniValue AF.Prior.ratSpecial 2 5 (1 / 3) = .ok 3 ∧
+    physLists AF.Prior.ratSpecial id (gridDims ratNum {} 2 [(0, 1), (2, 4)])
+        (unitLists ratNum false (gridDims ratNum {} 2 [(0, 1), (2, 4)]))
+      = [[.ok 0, .ok 2], [.ok 0, .ok 3], [.ok (1 / 2), .ok 2], [.ok (1 / 2), .ok 3]] := by
+  decide +kernel
+
+example : (sensPhysCells ratNum AF.Prior.ratSpecial id 1 (sensDims ratNum {} [((2, 5), 3)])).map
+      (fun c => c.map fun s => (s.centre, s.limits))
+    = [[(.ok (5 / 2), some (2, 3))], [(.ok (7 / 2), some (3, 4))], [(.ok (9 / 2), some (4, 5))]] := by
+  decide +kernel
+
+/-- known finding `C16-prior-unit-end-outside-limits` at the level of doubles: for this prior the raw
+value of the unit end point 1 is above the upper limit, `value_for(1.0)` raises -/
+theorem reported_physical_refuted_in_doubles :
+    raises (uniValue AF.Prior.floatSpecial (Float.ofBits 0xc080b7481a02faef)
+      (Float.ofBits 0xc06d9ac95ebeb875) (Float.ofNat 1)) = true := by
+  decide +kernel
 
 /-! tests (evaluated by the compiler at build time, not theorems): libm's `pow` does not reduce in
 the kernel, so the link between `sideF` and the bit pattern above is checked here -/
